@@ -63,6 +63,7 @@ fn dispatch(cmd: &str, rest: &[String]) -> i32 {
         "var-replay" => variation::replay(rest),
         "var-trace" => variation::trace(rest),
         "var-segments" => variation::segments(rest),
+        "var-pairs" => variation::pairs(rest),
         "sel-replay" => selection::replay(rest),
         "sel-law" => selection::law(rest),
         "sel-trace" => selection::trace(rest),
